@@ -4,7 +4,7 @@ set -u
 PATCH="$(realpath "$1")"; shift
 cd /repo || exit 2
 if [ -n "$(git status --porcelain)" ]; then echo "/repo not clean"; exit 2; fi
-trap 'git -C /repo checkout -- . ; git -C /repo clean -fdq -e target' EXIT
+trap 'git -C /repo checkout -- . ; git -C /repo clean -fdq -e target; /verif/check build >/dev/null 2>&1' EXIT
 git apply "$PATCH" || { echo "patch does not apply"; exit 2; }
 for id in "$@"; do
   out=$(VERIF_SEED=${VERIF_SEED:-0} /verif/check "$id" quick 2>&1); rc=$?
